@@ -1355,6 +1355,8 @@ func scopeSpecs() []scopeSpec {
 		{"Query", []string{"mxj.Map.ValuesForKey", "mxj.Map.ValueForKey", "mxj.Map.ValuesForPath", "mxj.Map.ValueForPath", "mxj.Map.ValueForPathString", "mxj.Map.Exists", "mxj.Map.PathsForKey", "mxj.Map.PathForKeyShortest", "mxj.Map.UpdateValuesForPath", "mxj.Map.SetValueForPath", "mxj.Map.Remove", "mxj.Map.RenameKey", "mxj.Map.NewMap"},
 			concat(decoderOnly, encoderOnly, []string{"mxj.useDotNotation", "mxj.attrPrefix", "mxj.lenAttrPrefix", "mxj.textK", "mxj.seqK", "mxj.attrK"}),
 			"codec options do not affect path/key queries"},
+		{"Gob", grpGob, concat(attrOpts, decoderOnly, encoderOnly, []string{"mxj.useDotNotation", "mxj.fieldSep", "mxj.defaultArraySize", "mxj.textK", "mxj.seqK", "mxj.attrK", "mxj.commentK", "mxj.JsonUseNumber"}),
+			"no option affects the gob encoding of a Map"},
 		{"Leaf", grpLeaf, concat(decoderOnly, encoderOnly, []string{"mxj.fieldSep", "mxj.defaultArraySize", "mxj.lenAttrPrefix", "mxj.seqK", "mxj.attrK"}),
 			"codec options do not affect LeafNodes"},
 	}
